@@ -25,6 +25,8 @@ func c03Kinds() []stmtKind {
 		b("ADD AX,1"), b("ADD AX,0x100"), b("ADD EAX,0x100"), b("ADD CX,-1"), b("ADD ECX,0x12345678"), b("SUB CX,128"), b("CMP AL,1"), b("CMP CL,1"), b("OR EAX,1"), b("XOR BX,BX"), b("AND EAX,0x7fffffff"),
 		b("AND BYTE [BX],1"), b("MOV WORD [BX],1"), b("MOV DWORD [0x1234],1"), b("MOV BYTE [0x0ff0],8"), b("ADD WORD [SI+4],0x100"), b("CMP DWORD [EBX],1"),
 		b("MOV AX,[BX]"), b("MOV AX,[BX+4]"), b("MOV AX,[BX+0x100]"), b("MOV AX,[BP]"), b("MOV AX,[BX+SI]"), b("MOV CX,[0x1234]"), b("MOV AX,[0x1234]"), b("MOV [0x1234],AX"), b("MOV [0x1234],AL"), b("MOV AL,[SI]"), b("MOV [DI],CL"),
+		b("MOV AX,[BX+127]"), b("MOV AX,[BX+128]"), b("MOV AX,[BX-128]"), b("MOV AX,[BX-129]"), b("MOV [SI-128],AL"), b("ADD AX,[BP-128]"), b("CMP BYTE [BX+127],1"), b("MOV WORD [DI-129],1"),
+		b("MOV EAX,[EBX+127]"), b("MOV EAX,[EBX+128]"), b("MOV EAX,[EBX-128]"), b("MOV EAX,[EBX-129]"), b("MOV EAX,[EBX+ECX*2-128]"), b("ADD ECX,[ESI-128]"),
 		b("MOV EAX,[EBX]"), b("MOV EAX,[EBX+16]"), b("MOV EAX,[EBX+0x100]"), b("MOV EAX,[EBX+ECX*4+8]"), b("MOV EAX,[ESP+4]"), b("MOV EAX,[EBP]"), b("MOV ECX,[EAX+EAX]"), b("MOV CX,[ESI]"), b("MOV [EDI],AL"),
 		b("NOT AX"), b("NOT EAX"), b("NOT WORD [BX]"), b("SHL AX,1"), b("SHL AX,4"), b("SHR EAX,16"), b("SAR CL,1"),
 		b("IMUL CX,4"), b("IMUL ECX,4608"), b("IMUL CX,0x100"),
